@@ -61,6 +61,15 @@ static int g_seen_ready;         /* T has observed READY (acquire) */
 static int g_my_init_win, g_my_fini_win;
 static int g_natomic;
 static void v_rp_check(void);
+/* planted by the driver after every function-scope `static` (non-const) declaration of ovni.c */
+static void v_static_used(const char *what)
+{
+	(void) what;
+#ifdef REPLAY
+	fprintf(stderr, "object with static storage duration used: %s\n", what);
+#endif
+	V_ASSERT(0, "C11: an API call uses a function-scope object with static storage duration: it is shared by all threads without synchronisation (data race / cross-thread corruption)");
+}
 static void env_havoc(int k);
 static void snapshot(void);
 
@@ -156,23 +165,51 @@ harness(void)
 {
 	V_LOAD_INPUTS();
 	V_ASSUME(IN.st0 <= G_GONE);
+#if GFS_TMPDIR
+	V_ASSUME(IN.st0 == G_READY);
+	g_st = G_READY;
+#else
 	g_st = IN.st0;
+#endif
 	g_env_owner = (IN.st0 == G_INIT) ? 1 : 0;    /* T does not own INIT at an API boundary */
 	V_ASSUME(IN.fs.ev_at >= 0);
 	for (int d = 0; d < GFS_NDIR; d++) gfs_dir[d] = 1;
 	/* process data as a finished initialisation would leave it (only meaningful once READY) */
 	rproc_real.pid = 1; rproc_real.app = 1; rproc_real.loom[0] = 'l'; rproc_real.clockid = CLOCK_MONOTONIC;
+#if GFS_TMPDIR
+	/* relocation mode: streams are written under /t and moved to the trace directory at thread end */
+	{ const char *pd = "/t/loom.l/proc.1/"; for (int i = 0; i < 18; i++) rproc_real.procdir[i] = pd[i]; }
+	{ const char *pd = "ovni/loom.l/proc.1/"; for (int i = 0; i < 20; i++) rproc_real.procdir_final[i] = pd[i]; }
+	{ const char *pd = "/t/loom.l"; for (int i = 0; i < 10; i++) rproc_real.loomdir[i] = pd[i]; }
+	{ const char *pd = "/t"; for (int i = 0; i < 3; i++) rproc_real.tmpdir[i] = pd[i]; }
+	rproc_real.move_to_final = 1;
+#else
 	{ const char *pd = "ovni/loom.l/proc.1/"; for (int i = 0; i < 20; i++) rproc_real.procdir[i] = pd[i]; }
+#endif
 	/* Inv of a thread: rthread.ready implies that it observed READY in ovni_thread_init() */
+#if GFS_TMPDIR   /* relocation obligations: keep the pre-state concrete so that the path strings stay constant for symex */
+	int ready0 = 1;
+#else
 	int ready0 = IN.ready0 ? 1 : 0;
+#endif
 	if (ready0) V_ASSUME(IN.st0 >= G_READY);
 	g_seen_ready = ready0;
 	rthread.ready = ready0;
 	rthread.tid = 1; rthread.streamfd = 3;
 	if (ready0) {
 		rthread.evbuf = malloc(OVNI_MAX_EV_BUF); V_ASSUME(rthread.evbuf != NULL);
+#if GFS_TMPDIR
+		rthread.evlen = 0;
+#else
 		V_ASSUME(IN.evlen0 < 4000); rthread.evlen = IN.evlen0;
+#endif
+#if GFS_TMPDIR
+		gfs_stream_open = 1; gfs_stream_file = T_OBS; gfs_f[T_OBS].exists = 1; gfs_f[T_OBS].len = 100; gfs_flushed = 100;
+		{ const char *pd = "/t/loom.l/proc.1//thread.1"; for (int i = 0; i < 27; i++) rthread.thdir[i] = pd[i]; }
+		{ const char *pd = "ovni/loom.l/proc.1//thread.1"; for (int i = 0; i < 29; i++) rthread.thdir_final[i] = pd[i]; }
+#else
 		gfs_stream_open = 1; gfs_stream_file = F_OBS; gfs_f[F_OBS].exists = 1;
+#endif
 		rthread.meta = gv_json_value_init_object();
 	}
 	snapshot();
